@@ -146,6 +146,11 @@ pub fn evaluate(sc: &ChanSc, run: &ChanRun) -> Vec<Violation> {
         &[("recv_future_cancelled", recv_outcome_seen(evs, RRes::Cancelled).to_string()), ("recv_timed_out", recv_outcome_seen(evs, RRes::Timeout).to_string())],
         format!("tokens {lost:?} were sent Ok but never received although a receiver drained to Disconnected; timed/cancelled receives in run: [{timed}]"),
       ));
+      if !recv_outcome_seen(evs, RRes::Cancelled) && !recv_outcome_seen(evs, RRes::Timeout) {
+        // the same loss seen from C04: Disconnected was reported before the buffer was drained
+        // (no receive was cancelled or timed out, so nothing else can have taken the tokens)
+        vs.push(viol(sc, "C04", "disconnected_before_drained", &[], format!("a receiver was told Disconnected although tokens {lost:?}, whose sends had returned Ok, were never delivered to anyone")));
+      }
       if any_cancel(evs) {
         // the same loss seen from C06: dropping a pending future must not lose a message
         vs.push(viol(
